@@ -104,6 +104,8 @@ Seed1 == [Empty EXCEPT !["t1"] = [Absent EXCEPT !.cols = [c \in Cn |-> IF c = "c
                                     !.chk = {[name |-> "k1", expr |-> "e1"]}]]
 Seed2 == [Seed1 EXCEPT !["t2"] = [Absent EXCEPT !.cols = [c \in Cn |-> IF c = "c" THEN NoCol ELSE [type |-> "INT", null |-> (c = "b"), dflt |-> "none", gen |-> ""]],
                                     !.pk = <<"a">>, !.fks = {[name |-> "f1", col |-> "b", ref |-> "t1", refcol |-> "a", onupd |-> "CASCADE", ondel |-> "NO ACTION"]}]]
+\* Seed2 with a cascading child: a parent rebuilt with foreign keys enforced would silently delete the child's rows
+Seed5 == [Seed2 EXCEPT !["t2"].fks = {[name |-> "f1", col |-> "b", ref |-> "t1", refcol |-> "a", onupd |-> "NO ACTION", ondel |-> "CASCADE"]}]
 Seed3 == [Empty EXCEPT !["t1"] = [Absent EXCEPT !.cols = [c \in Cn |-> IntCol], !.pk = <<"b", "a">>, !.worowid = TRUE,
                                     !.idx = {[name |-> "i1", parts |-> <<Part("a", FALSE), Part("c", TRUE)>>, unique |-> FALSE, where |-> "w1"]},
                                     !.chk = {[name |-> "", expr |-> "e1"], [name |-> "k2", expr |-> "e2"]}]]
